@@ -6,12 +6,31 @@
 #include "common.hh"
 #include "poly_io.hh"
 #include <memory>
+#include <vector>
+#include <cstring>
 
 using namespace Parma_Polyhedra_Library;
 using pplv::Rng;
 using namespace pplv_io;
 
-static pplv::Journal J(1);
+// Journal with an "exact" mode (stage 2 tie): the ordinary lines are captured instead of printed,
+// the step wrappers print xb / xo / xe / xa lines (disjunct LISTS and the `reduced' flag of all slots
+// before and after every step; see lean/PPLV/Powerset/ExactReplay.lean).
+struct XJournal : pplv::Journal {
+  bool exact = false;
+  std::vector<std::string> ops, extra;
+  XJournal() : pplv::Journal(1) {}
+  static bool starts(const std::string& s, const char* p) { return s.compare(0, strlen(p), p) == 0; }
+  void raw(const std::string& s) { pplv::Journal::line(s); }
+  void line(const std::string& s) {
+    if (!exact) { raw(s); return; }
+    if (starts(s, "hist ") || s == "end") { raw(s); return; }
+    if (starts(s, "op ") || starts(s, "copy ") || starts(s, "swap ") || starts(s, "new ") || starts(s, "newu ")
+        || starts(s, "newe ") || starts(s, "q ") || starts(s, "exc ") || starts(s, "ret "))
+      ops.push_back(s);
+  }
+};
+static XJournal J;
 
 // ---- domain traits -------------------------------------------------------------------------
 template <typename PSET> struct Tr;
@@ -60,9 +79,10 @@ struct Hist {
   typedef Pointset_Powerset<PSET> PS;
   typedef Tr<PSET> T;
   Rng r;
+  Rng rx;                       // decisions that exist in exact mode only (keeps the histories identical)
   std::unique_ptr<PS> slot[4];
   dimension_type maxdim;
-  Hist(uint64_t seed) : r(seed) {}
+  Hist(uint64_t seed) : r(seed), rx(seed ^ 0x9e3779b97f4a7c15ull) {}
 
   bool live(int s) const { return (bool)slot[s]; }
   dimension_type dim(int s) { return slot[s]->space_dimension(); }
@@ -112,6 +132,79 @@ struct Hist {
   static void put_gens_of(OS& o, const NNC_Polyhedron& p, dimension_type n) { put_gs(o, p.minimized_generators(), n); }
   template <typename X> static void put_gens_of(OS& o, const X&, dimension_type) { o << " 0"; }
 
+  // ---- exact mode: the sequence and the flag of every slot, read without touching the objects ----
+  // (`sequence' / `reduced' are protected members of Powerset: read through a derived class; every
+  //  disjunct is deep-copied before its constraints / generators are asked for)
+  struct Peek : PS {
+    static bool flag(const PS& p) { return static_cast<const Peek&>(p).reduced; }
+  };
+  std::string snap_slot(int s, bool gens) {
+    OS o;
+    if (!live(s)) { o << " 0"; return o.str(); }
+    const PS& P = *slot[s];
+    dimension_type n = P.space_dimension();
+    o << " 1 " << n << " " << Peek::flag(P) << " " << P.size();
+    for (typename PS::const_iterator i = P.begin(); i != P.end(); ++i) {
+      PSET cp(i->pointset());
+      put_cs(o, cp.constraints(), n);
+      if (gens && T::poly) { o << " g"; put_gens_of(o, cp, n); } else o << " -";
+    }
+    return o.str();
+  }
+  void snap_all(const char* tag, bool gens) {
+    OS o; o << tag;
+    for (int s = 0; s < 4; ++s) o << snap_slot(s, gens);
+    J.raw(o.str());
+  }
+  template <typename F> void xstep(F body) {
+    if (!J.exact) { body(); return; }
+    J.ops.clear(); J.extra.clear();
+    snap_all("xb", true);
+    body();
+    for (size_t i = 0; i < J.ops.size(); ++i) J.raw("xo " + J.ops[i]);
+    for (size_t i = 0; i < J.extra.size(); ++i) J.raw("xe " + J.extra[i]);
+    snap_all("xa", false);
+  }
+  // the constraint systems linear_partition will iterate over in difference_assign(y): the library
+  // works on NNC copies of the operands, reduces them and asks every disjunct for constraints();
+  // the same preparatory steps on a copy (the order of the rows is a matter of representation; the
+  // driver only trusts them after checking that they denote the disjuncts of the reduced operand)
+  void journal_diff_cons(const PS& y) {
+    if (!J.exact || !T::poly) return;
+    Pointset_Powerset<NNC_Polyhedron> yy(y);
+    yy.omega_reduce();
+    OS o; dimension_type n = yy.space_dimension();
+    o << "ycons " << yy.size();
+    for (Pointset_Powerset<NNC_Polyhedron>::const_iterator i = yy.begin(); i != yy.end(); ++i)
+      put_cs(o, i->pointset().constraints(), n);
+    J.extra.push_back(o.str());
+  }
+  // linear_partition(p, q) itself, on deep copies of two disjuncts (journalled completely)
+  void journal_linear_partition() {
+    if (!J.exact || !T::poly) return;
+    int c[4], m = 0;
+    for (int k = 0; k < 4; ++k) if (live(k)) c[m++] = k;
+    int s = c[rx.below(m)];
+    m = 0;
+    for (int k = 0; k < 4; ++k) if (live(k) && dim(k) == dim(s)) c[m++] = k;
+    int t = c[rx.below(m)];
+    if (slot[s]->size() == 0 || slot[t]->size() == 0) return;
+    typename PS::const_iterator i = slot[s]->begin(), j = slot[t]->begin();
+    for (unsigned k = rx.below(slot[s]->size()); k > 0; --k) ++i;
+    for (unsigned k = rx.below(slot[t]->size()); k > 0; --k) ++j;
+    PSET p(i->pointset()), q(j->pointset());
+    dimension_type n = p.space_dimension();
+    OS o; o << "xlp " << T::code << " " << n;
+    put_cs(o, q.constraints(), n);
+    std::pair<PSET, Pointset_Powerset<NNC_Polyhedron> > res = linear_partition(p, q);
+    put_cs(o, p.constraints(), n);            // the rows linear_partition iterated over, in its order
+    put_cs(o, res.first.constraints(), n);
+    o << " " << res.second.size();
+    for (Pointset_Powerset<NNC_Polyhedron>::const_iterator k = res.second.begin(); k != res.second.end(); ++k)
+      put_cs(o, k->pointset().constraints(), n);
+    J.raw(o.str());
+  }
+
   // ---- construction ----------------------------------------------------------------------
   PSET make_disjunct(dimension_type n, const Constraint_System& cs) {
     PSET p(cs);
@@ -119,8 +212,9 @@ struct Hist {
     return p;
   }
   // a new disjunct related to the current contents of slot s: fresh, duplicate, subset, adjacent, empty
-  Constraint_System related_cs(int s, dimension_type n) {
-    unsigned k = r.below(10);
+  Constraint_System related_cs(int s, dimension_type n) { return related_cs(r, s, n, 10); }
+  Constraint_System related_cs(Rng& r, int s, dimension_type n, unsigned kinds) {
+    unsigned k = kinds == 10 ? r.below(10) : kinds;
     PS& P = *slot[s];
     if (k < 5 || P.size() == 0) return dom_cs<PSET>(r, n, 3);
     // pick an existing disjunct
@@ -247,14 +341,15 @@ struct Hist {
       case 16: case 17: case 18: { int t = pick_compatible(s); other = t;
         if (P.size() * slot[t]->size() > 9) return;
         o << "op " << s << " diff " << t; J.line(o.str());
+        journal_diff_cons(*slot[t]);
         P.difference_assign(*slot[t]); break; }
       case 19: case 20: { Constraint_System cs = dom_cs<PSET>(r, n, 2);
         o << "op " << s << " add_cons"; put_cs(o, cs, n); J.line(o.str());
-        if (r.chance(1, 2)) P.add_constraints(cs); else for (Constraint_System::const_iterator i = cs.begin(); i != cs.end(); ++i) P.add_constraint(*i);
+        if (r.chance(1, 2)) P.add_constraints(cs); else { J.extra.push_back("each"); for (Constraint_System::const_iterator i = cs.begin(); i != cs.end(); ++i) P.add_constraint(*i); }
         break; }
       case 21: { Constraint_System cs = dom_cs<PSET>(r, n, 2);
         o << "op " << s << " add_cons"; put_cs(o, cs, n); J.line(o.str());
-        if (r.chance(1, 2)) P.refine_with_constraints(cs); else for (Constraint_System::const_iterator i = cs.begin(); i != cs.end(); ++i) P.refine_with_constraint(*i);
+        if (r.chance(1, 2)) P.refine_with_constraints(cs); else { J.extra.push_back("each"); for (Constraint_System::const_iterator i = cs.begin(); i != cs.end(); ++i) P.refine_with_constraint(*i); }
         break; }
       case 22: case 23: { dimension_type v = r.below(n);
         Linear_Expression e = rnd_expr(r, n, 2, false); Coefficient d = r.chance(1, 4) ? r.range(-2, -1) : r.range(1, 2);
@@ -328,16 +423,111 @@ struct Hist {
     if (other >= 0 && other != s) check_ok(other);
   }
 
+  // ---- exact mode only: situations the sequence-level algorithms are sensitive to ---------------
+  // (equal disjuncts at different positions before a reduction; more disjuncts than the bound of
+  //  collapse(max_disjuncts); adjacent disjuncts before pairwise_reduce) -- decisions from `rx'
+  void xadd(int s, const Constraint_System& cs) {
+    xstep([&] {
+      PS& P = *slot[s]; dimension_type n = P.space_dimension();
+      OS o; o << "op " << s << " add_disjunct"; put_cs(o, cs, n); J.line(o.str());
+      try { P.add_disjunct(make_disjunct(n, cs)); } catch (...) { J.line("exc " + pplv::exc_class()); }
+    });
+  }
+  template <typename F> void xop(int s, const std::string& what, F f) {
+    xstep([&] {
+      OS o; o << "op " << s << " " << what; J.line(o.str());
+      try { f(*slot[s]); } catch (...) { J.line("exc " + pplv::exc_class()); }
+    });
+  }
+  // widening functor that journals every call (argument order of PPL: the receiver is the larger one)
+  struct JWiden {
+    dimension_type n;
+    void operator()(PSET& a, const PSET& b, unsigned* = 0) const {
+      OS o; o << "widen";
+      { PSET ca(a), cb(b); put_cs(o, ca.constraints(), n); put_cs(o, cb.constraints(), n); }
+      a.H79_widening_assign(b);
+      { PSET ca(a); put_cs(o, ca.constraints(), n); }
+      J.extra.push_back(o.str());
+    }
+  };
+  void xbgp99_poly(int s, int t) {
+    // make the argument entail the receiver (the precondition of the extrapolation operators)
+    xstep([&] {
+      OS o; o << "op " << s << " ub " << t; J.line(o.str());
+      try { slot[s]->upper_bound_assign(*slot[t]); } catch (...) { J.line("exc " + pplv::exc_class()); }
+    });
+    dimension_type n = dim(s);
+    if (rx.chance(1, 2)) xadd(s, related_cs(rx, s, n, 8));
+    if (rx.chance(1, 3)) xadd(s, dom_cs<PSET>(rx, n, 3));
+    unsigned mx = rx.below(4);
+    xstep([&] {
+      OS o; o << "op " << s << " bgp99 " << t << " " << mx; J.line(o.str());
+      JWiden w; w.n = n;
+      try { slot[s]->BGP99_extrapolation_assign(*slot[t], w, mx); } catch (...) { J.line("exc " + pplv::exc_class()); }
+    });
+  }
+
+  void xextra() {
+    int c[4], m = 0;
+    for (int k = 0; k < 4; ++k) if (live(k)) c[m++] = k;
+    int s = c[rx.below(m)];
+    dimension_type n = dim(s);
+    switch (rx.below(5)) {
+    case 4: {                       // BGP99 extrapolation with a journalling widening (polyhedra)
+      int t = -1;
+      for (int k = 0; k < 4; ++k) if (k != s && live(k) && dim(k) == n) t = k;
+      if (t < 0 || !T::poly || slot[s]->size() + slot[t]->size() > 6) return;
+      if constexpr (T::poly) xbgp99_poly(s, t);
+      break; }
+    case 0: {                       // equal disjuncts, other disjuncts in between, then a reduction
+      if (slot[s]->size() == 0 || slot[s]->size() > 5) return;
+      if (rx.chance(1, 2)) xadd(s, dom_cs<PSET>(rx, n, 3));
+      xadd(s, related_cs(rx, s, n, 5));
+      if (rx.chance(1, 2)) xadd(s, dom_cs<PSET>(rx, n, 3));
+      if (rx.chance(1, 3)) xadd(s, related_cs(rx, s, n, 5));
+      xop(s, "omega_reduce", [](PS& P) { P.omega_reduce(); });
+      break; }
+    case 1: {                       // more disjuncts than the bound
+      if (slot[s]->size() > 4) return;
+      unsigned add = 2 + rx.below(3);
+      for (unsigned i = 0; i < add; ++i) xadd(s, dom_cs<PSET>(rx, n, 3));
+      unsigned mx = 2 + rx.below(2);
+      OS w; w << "collapse_max " << mx;
+      xop(s, w.str(), [mx](PS& P) { struct Open : PS { void collapse_to(unsigned k) { this->collapse(k); } };
+                                    static_cast<Open&>(P).collapse_to(mx); });
+      break; }
+    case 2: {                       // adjacent / nested disjuncts, then pairwise_reduce
+      if (slot[s]->size() == 0 || slot[s]->size() > 4) return;
+      unsigned add = 1 + rx.below(2);
+      for (unsigned i = 0; i < add; ++i) xadd(s, related_cs(rx, s, n, rx.chance(1, 4) ? 6 : 8));
+      if (rx.chance(1, 3)) xadd(s, dom_cs<PSET>(rx, n, 3));
+      xop(s, "pairwise_reduce", [](PS& P) { P.pairwise_reduce(); });
+      break; }
+    default: {                      // an upper bound with an argument sharing equal disjuncts
+      int t = -1;
+      for (int k = 0; k < 4; ++k) if (k != s && live(k) && dim(k) == n) t = k;
+      if (t < 0 || slot[s]->size() == 0 || slot[s]->size() + slot[t]->size() > 7) return;
+      xadd(t, related_cs(rx, s, n, 5));
+      xstep([&] {
+        OS o; o << "op " << s << " ub " << t; J.line(o.str());
+        try { slot[s]->upper_bound_assign(*slot[t]); } catch (...) { J.line("exc " + pplv::exc_class()); }
+      });
+      break; }
+    }
+  }
+
   void run(long h, long seed, long len) {
     dimension_type n = 1 + r.below((unsigned)std::min<long>(maxdim, 3));
     { OS o; o << "hist " << h << " " << seed << " " << T::code; J.line(o.str()); }
-    create(0, n); show(0);
-    create(1, n); show(1);
-    if (r.chance(1, 2)) { create(2, n); show(2); }
+    xstep([&] { create(0, n); }); show(0);
+    xstep([&] { create(1, n); }); show(1);
+    if (r.chance(1, 2)) { xstep([&] { create(2, n); }); show(2); }
     for (long i = 0; i < len; ++i) {
-      mutate();
-      if (r.chance(1, 2)) { int s = pick_live(); query(s); show(s); }
+      xstep([&] { mutate(); });
+      if (r.chance(1, 2)) { int s = pick_live(); xstep([&] { query(s); }); show(s); }
       if (r.chance(1, 4)) show_all();
+      if (J.exact && rx.chance(1, 3)) journal_linear_partition();
+      if (J.exact && rx.chance(1, 3)) xextra();
     }
     show_all();
     for (int s = 0; s < 4; ++s) check_ok(s);
@@ -353,6 +543,7 @@ int main(int argc, char** argv) {
   long maxdim = pplv::arg_long(argc, argv, "--maxdim", 3);
   long batch = pplv::arg_long(argc, argv, "--batch", 20);
   const char* only = pplv::arg_str(argc, argv, "--dom", "");
+  J.exact = pplv::arg_long(argc, argv, "--exact", 0) != 0;
   long nb = (last - first + batch - 1) / batch;
   return pplv::run_batches(0, nb, [&](long b) {
     for (long h = first + b * batch; h < std::min(last, first + (b + 1) * batch); ++h) {
